@@ -1566,7 +1566,7 @@ def prep_psf(rng, scene):
                 fwhm=float(np.mean(scene['src_sx']) * 2.2), use_error=_use(rng), use_mask=_use(rng, 0.4),
                 grouper=_opt(rng, None, None, 6.0), localbkg=_opt(rng, None, None, (5.0, 9.0)),
                 aperture_radius=float(rng.uniform(3.0, 5.0)), finder=_use(rng, 0.2), fixed_fwhm=_use(rng, 0.7),
-                flux_init=_use(rng, 0.5))
+                flux_init=_use(rng, 0.5), iterative=_use(rng, 0.2), iter_mode=_opt(rng, 'new', 'all'))
 
 
 def run_psf(s, o):
@@ -1606,7 +1606,17 @@ def run_psf(s, o):
                 return super().__call__(*a, **k)
         kwf['fitter'] = TightFitter()
         kwf['fitter_maxiters'] = 400
-    phot = PSFPhotometry(model, tuple(o['fit_shape']), finder=finder, grouper=grouper, **kwf,
+    if o.get('iterative'):
+        # IterativePSFPhotometry needs a finder; sources come from the finder in every iteration
+        from photutils.psf import IterativePSFPhotometry
+        finder = DAOStarFinder(_q(5.0 * s['sigma'], o), o['fwhm'])
+        init = None
+        phot = IterativePSFPhotometry(model, tuple(o['fit_shape']), finder, grouper=grouper,
+                                      localbkg_estimator=lb, aperture_radius=o['aperture_radius'], maxiters=2,
+                                      mode=o['iter_mode'], progress_bar=False)
+    else:
+        phot = None
+    phot = phot or PSFPhotometry(model, tuple(o['fit_shape']), finder=finder, grouper=grouper, **kwf,
                          localbkg_estimator=lb, aperture_radius=o['aperture_radius'], progress_bar=False)
     t = phot(s['data'], mask=_mask(s, o), error=_err(s, o), init_params=init)
     if t is None:
@@ -1713,10 +1723,10 @@ TR, TP, RP = 'translate', 'transpose', 'repr'
 
 TABLE = [
     EP('aperture_photometry', prep_apphot, run_apphot, SPEC_APPHOT, {TR, TP, RP},
-       must_reach=['photutils.aperture.photometry:aperture_photometry'], arrays=('data', 'error'), nddata=True,
+       must_reach=['photutils.aperture.photometry:aperture_photometry'], arrays=('data', 'error'), nddata='stddev',
        mech_fn=mech_apphot),
     EP('ApertureStats', prep_apstats, run_apstats, SPEC_APSTATS, {TR, TP, RP},
-       must_reach=['photutils.aperture.stats:ApertureStats.centroid'], arrays=('data', 'error'), nddata=True,
+       must_reach=['photutils.aperture.stats:ApertureStats.centroid'], arrays=('data', 'error'), nddata='stddev',
        mech_fn=mech_apstats),
     EP('find_peaks', prep_peaks, run_peaks, SPEC_PEAKS, {TR, RP},
        must_reach=['photutils.detection.peakfinder:find_peaks'], arrays=('data', 'conv'), discrete=True),
@@ -1758,7 +1768,7 @@ TABLE = [
     EP('statistics', prep_stats, run_stats, SPEC_STATS, {RP},
        must_reach=['photutils.background.core:StdBackgroundRMS.calc_background_rms',
                    'photutils.background.core:MeanBackground.calc_background',
-                   'photutils.background.core:MMMBackground.calc_background',
+                   'photutils.background.core:ModeEstimatorBackground.calc_background',
                    'photutils.background.core:BiweightScaleBackgroundRMS.calc_background_rms'],
        arrays=('pdata',), nddata=False, flavour='pedestal'),
     EP('calc_total_error', prep_toterr, run_toterr, SPEC_TOTERR, {RP},
